@@ -126,7 +126,10 @@ def cases(tier):
         out.append(("pow", backend, 0, 0, tier))
         out.append(("missing", backend, 0, 0, tier))
         out.append(("lists", backend, 0, 0, tier))
-    out.append(("race", "-", 0, 0, tier))
+    # one case per (target, rotation, granularity) so that the interleaving explorations run in parallel
+    nvar = 3 * (2 if tier == "thorough" else 1)
+    for i in range(nvar):
+        out.append(("race", "-", i, 0, tier))
     return out
 
 
@@ -137,6 +140,10 @@ def describe(case):
 def session(backend):
     s = seq.session(backend, config=dict(CFG))
     CLOCK.now = float(NOW)
+    for k, v in CFG.items():
+        setattr(s.w.ns.Config, k, list(v) if isinstance(v, list) else v)
+    s.w.ns.Config.service_privatekey = SK["S"]
+    s.w.ns.Config.dynamic_lists = None
     dl = s.w.ns
     import nostr_relay.dynamic_lists as D
 
@@ -350,6 +357,9 @@ def run_race(case):
     ns = env.boot()
     import nostr_relay.dynamic_lists as D
 
+    # this case edits the process-global Config directly: no cached sequential session may outlive it with a stale view
+    seq.close_all()
+    saved = {k: getattr(ns.Config, k) for k in ("dynamic_lists", "pubkey_whitelist", "service_privatekey")}
     tier = case[4]
     viol = []
     cid = "race"
@@ -393,8 +403,10 @@ def run_race(case):
         return mk
 
     try:
-        for label, target, rot in (("outsider", outsider, "overlapping"), ("outsider", outsider, "disjoint"), ("insider", insider, "overlapping")):
-            for opcodes in ((False, True) if tier == "thorough" else (False,)):
+        variants = [(label, target, rot, opc) for opc in ((False, True) if tier == "thorough" else (False,))
+                    for label, target, rot in (("outsider", outsider, "overlapping"), ("outsider", outsider, "disjoint"), ("insider", insider, "overlapping"))]
+        for label, target, rot, opc in [variants[case[2]]]:
+            for opcodes in (opc,):
                 bound = 2 if not opcodes else 2
 
                 def on_run(r, label=label, opcodes=opcodes, rot=rot):
@@ -421,7 +433,9 @@ def run_race(case):
         D.get_storage = real_get
         D.ALLOWED_PUBKEYS.clear()
         D.DENIED_PUBKEYS.clear()
-        ns.Config.dynamic_lists = None
+        for k, v in saved.items():
+            setattr(ns.Config, k, v)
+        seq.close_all()
     # keep one witness per granularity
     uniq = {}
     for v in viol:
